@@ -7,7 +7,7 @@ import Rpki.Model.Crl
 import Rpki.Proofs.DerLemmas
 import Rpki.Proofs.ManifestCodec
 import Rpki.Props.C17
-import Rpki.Props.C04
+import Rpki.Proofs.DerLemmas
 namespace Rpki.Crl
 open Rpki.Der
 
@@ -266,7 +266,7 @@ and answers membership in what `iter` yields -/
 theorem contains_after_capture (b : Bytes) (n : Nat) (h : capture b = some n) (s : Bytes) :
     ∃ es, entries b = some es ∧ es.length = n ∧
       contains b s = some (decide (∃ e ∈ es, e.serial = s)) := by
-  obtain ⟨es, h1, h2, _⟩ := Props.C04.capture_iterate_parity takeOptEntry (fun _ => true) b.length b 0 n h
+  obtain ⟨es, h1, h2, _⟩ := Der.capture_iterate_parity takeOptEntry (fun _ => true) b.length b 0 n h
   exact ⟨es, h1, by simpa using h2, contains_eq_listed b es h1 s⟩
 
 /-! ### non-vacuity -/
